@@ -10,9 +10,9 @@ LEVEL = 'fault_enumeration'
 SHARDS = {'quick': 1, 'thorough': 1}
 
 # symbol -> (transient?, builder(k)) ; every response carries the unique marker k
-TRANSIENT = ['T500', 'T503', 'V500', 'V502']
-TERMINAL = ['OK', 'P500', 'X500', 'XT500', 'TX500', 'XT2_500', 'N500', 'N502', 'E401', 'E404', 'E400', 'T400', 'BADJSON500', 'EMPTY500']
-QUICK_TRANSIENT = ['T500', 'V500']
+TRANSIENT = ['T500', 'T503', 'V500', 'V502', 'VJ500']
+TERMINAL = ['OK', 'P500', 'X500', 'XT500', 'TX500', 'XT2_500', 'N500', 'N502', 'E401', 'E404', 'E400', 'T400', 'BADJSON500', 'EMPTY500', 'NOERR500']
+QUICK_TRANSIENT = ['T500', 'V500', 'VJ500']
 
 
 def build(sym, k, url):
@@ -23,6 +23,10 @@ def build(sym, k, url):
         return mk(int(sym[1:]), [{'kind': 'temporary', 'id': 'node.prevalidation.busy', 'msg': 'r%d' % k}], url=url)
     if sym in ('V500', 'V502'):
         return mk(int(sym[1:]), text='Assert_failure src/lib_shell/prevalidator.ml:1918:8 r%d' % k, ctype='text/plain', url=url)
+    if sym == 'VJ500':     # the prevalidator failure text under a JSON content type (the body is not JSON)
+        return mk(500, text='Assert_failure src/lib_shell/prevalidator.ml:1918:8 r%d' % k, ctype='application/json', url=url)
+    if sym == 'NOERR500':  # a JSON error response whose error list is empty
+        return mk(500, [], url=url)
     if sym == 'P500':
         return mk(500, [{'kind': 'permanent', 'id': 'node.state.block_not_found', 'msg': 'r%d' % k}], url=url)
     if sym == 'X500':
@@ -120,7 +124,7 @@ def judge(ctx, seq, via):
     else:
         if outcome[0] != 'rpcerror':
             return ctx.violation('C26|last-error-not-raised|' + last_sym, repr(outcome), case)
-        if last_sym not in ('E401', 'E404'):
+        if last_sym not in ('E401', 'E404', 'NOERR500'):
             if ('r%d' % last_k) not in repr(outcome[1].args):
                 return ctx.violation('C26|raised-error-not-from-last-response|' + last_sym,
                                      'args=%r last=r%d' % (outcome[1].args, last_k), case)
